@@ -124,7 +124,7 @@ var c01Profile = &sim.Profile{
 		"admin_unlock": 1, "admin_updatepw": 1, "admin_startconfirm": 1, "appset": 1, "totp_remove": 1, "sms_remove": 1, "regen": 1,
 		"ev_start": 1, "ev_end": 1, "faultnext": 3,
 	},
-	MinLen: 25, MaxLen: 55, Templates: c01Templates(), TplProb: 0.35, NoiseProb: 0.15,
+	MinLen: 25, MaxLen: 55, Templates: c01Templates(), TplProb: 0.55, NoiseProb: 0.15,
 }
 
 // c01Templates: the directed scripts of the other checks are good C01 workloads too (they reach
@@ -151,7 +151,7 @@ func c01Templates() []sim.Template {
 			act("otp_login", 1, v, "ok"), act(k, 1, -9, "ok"), act("advance", 1, -9, "", "d", "31s"),
 			act("otp_login", 2, v, "spent"), act(k, 2, -9, "ok"), act("visit", 2, -9, "", "route", "/protected/bare")}
 	}}
-	for i := 0; i < 8; i++ { // weight: as likely as a quarter of the borrowed templates together
+	for i := 0; i < 3; i++ { // weight
 		t = append(t, own)
 	}
 	return t
